@@ -29,14 +29,17 @@ def condOfText (s : String) : Cond × List String :=
   | _ => (.atom 0, [s])
 
 /-- from the tokens of the query on: everything after lexing -/
-def prepareTokens (ts : List Token) : Outcome Prepared := do
-  let pq ← parseQueryTokens grammar startRule ts
-  let expanded := String.ofList (replacePredicateVariables pq)
-  if expanded == "" then
-    pure { pq := pq, expanded := expanded, cond := none, atoms := [] }
-  else
-    let (c, atoms) := condOfText expanded
-    pure { pq := pq, expanded := expanded, cond := some c, atoms := atoms }
+def prepareTokens (ts : List Token) : Outcome Prepared :=
+  match parseQueryTokens grammar startRule ts with
+  | .ok pq =>
+      let expanded := String.ofList (replacePredicateVariables pq)
+      if expanded == "" then
+        .ok { pq := pq, expanded := expanded, cond := none, atoms := [] }
+      else
+        let (c, atoms) := condOfText expanded
+        .ok { pq := pq, expanded := expanded, cond := some c, atoms := atoms }
+  | .diag m => .diag m
+  | .panic m => .panic m
 
 def prepare (cs : List Char) : Outcome Prepared :=
   match lex lexRules cs with
